@@ -27,6 +27,19 @@ CLAIMED["C12"] = dict(
          "Does not decide run-time index bounds or exit status.",
     note="Trusted: clang front end and AST export. A member handed out by address/reference is assumed initialised by the callee.")
 
+CLAIMED["C07"] = dict(
+    level="proof", design="3/C07",
+    technique="static analysis: partial evaluation of the graph-building functions over a finite abstract neighbour "
+              "configuration domain (729 configurations), exhaustive check of the extracted task-graph invariants, "
+              "typestate protocol check of the worker loop CFG",
+    text="For all layouts and periodicities at once (every abstract neighbour configuration incl. single- and two-subgrid "
+         "periodic axes) the extracted task graph satisfies: reset counter = in-degree, edges respect the phase order (acyclic), "
+         "child capacity 7, touched subgrids are covered by held locks, the two locks differ, source tasks reach everything, "
+         "each interface is owned by one task; the worker loop follows execute -> stop -> unlock -> release children -> "
+         "self-decrement. These premises imply exactly-once, ordering, mutual exclusion and termination for every schedule by the "
+         "argument in DESIGN.md C07.",
+    note="Assumes mutual neighbour tables (A1), the container guarantees of C08 and a fair OpenMP runtime; trusted base: clang, AST export, the extractor.")
+
 NOT_APPLICABLE = {
     "C13": "Equality with the RANLUX sequence, range [0,1) and byte-identical snapshots are facts about computed 48-bit arithmetic and library I/O; no sound static domain or on-disk reference to validate against. Its one structural clause (generator state fully dumped/restored) is decided under C09.",
     "C15": "Validity of a Voronoi tessellation and agreement of two constructions quantify over real generator sets; correctness rests on geometric predicates and flip sequences whose outcomes are runtime values; no clause has its truth in the shape of the code.",
